@@ -3,7 +3,7 @@ coordinates an extent (rmin, rmax, cmin, cmax) stands for (property C06; used by
 import z3
 
 from lvc import sym as S
-from lvc.spec import contract, extent, shape2, ints, int_pair, in_extent
+from lvc.spec import contract, extent, shape2, ints, int_pair, in_extent, elems
 
 
 def pixels(e, r, c):
@@ -29,7 +29,8 @@ def _ae_params(ctx):
 def array_extent_model(ctx, env):
     """Extent of an h x w array whose centre sample (index floor(n/2)) sits at `shift`
     (+ the parent's centre index floor(N/2) when a parent shape is given)."""
-    shape, shift, parent = env['shape'], env['shift'], env['parent_shape']
+    shape, shift, parent = elems(ctx, env['shape']), elems(ctx, env['shift']), env['parent_shape']
+    parent = None if parent is None else elems(ctx, parent)
     if len(shape) < 2:
         shape = (1, 1)
     h, w = shape[0], shape[1]
